@@ -13,7 +13,7 @@ pub mod rng;
 pub mod tbl;
 pub mod twolevel;
 
-pub use ctx::{guard, run_mix, run_mix_concurrent, run_sharded, silence_panics, Cli, Ctx, Ev, Outcome};
+pub use ctx::{guard, run_events_concurrently, run_mix, run_mix_concurrent, run_sharded, silence_panics, Cli, Ctx, Ev, Outcome};
 pub use json::Json;
 pub use model::Model;
 pub use rng::{Digest, Rng};
